@@ -159,7 +159,7 @@ func Verif_C08_two_sessions() {
 		{"command": "work", "subcommand": "submit", "node": "A", "worktype": "cmd"},
 		{"command": "work", "subcommand": "status", "unitid": "unit0021"},
 	}[verifapi.Choose(3)]
-	verifapi.ExploreSchedules(2)
+	verifapi.ExploreSchedules(2 + verifapi.Tier())
 	done := make(chan bool, 2)
 	go func() {
 		_, _ = wk.verifCommand(verifNewCFO("unix"), first)
